@@ -122,3 +122,55 @@ Section P4.
       rewrite (Hc _ Cc Sc). simpl. exact (IHa Ha C S).
   Qed.
 End P4.
+
+(* ---------- the verdict of an assertion does not depend on the names under which arithmetic priors keep their
+   operands (those names come from the caller's variables; since d91c8d6 they can no longer collide with the
+   object's own attributes, so they are names only) ---------- *)
+Section Names.
+  Variable V : Type.
+  Variable bin : binop -> V -> V -> V.
+  Variable bin_ok : binop -> V -> V -> bool.
+  Variable ltb leb : V -> V -> bool.
+  Variable of_bool : bool -> V.
+  Variable args : nat -> option V.
+  Notation operand := (operand V bin bin_ok args).
+  Notation holds := (holds V bin bin_ok ltb leb of_bool args).
+
+  (* forget every operand name inside an operand expression *)
+  Fixpoint erase (n : node V) : node V :=
+    match n with
+    | NBin o _ _ l r => NBin o "" "" (erase l) (erase r)
+    | _ => n
+    end.
+
+  Fixpoint erase_a (a : assertion V) : assertion V :=
+    match a with
+    | ALt l g => ALt (erase l) (erase g)
+    | ALe l g => ALe (erase l) (erase g)
+    | AAnd x y => AAnd (erase_a x) (erase_a y)
+    | ALit b => ALit b
+    | ALowB s x g => ALowB s (erase_a x) (erase g)
+    | AGrB s l x => AGrB s (erase l) (erase_a x)
+    end.
+
+  Lemma operand_erase (n : node V) : operand (erase n) = operand n.
+  Proof.
+    induction n as [q|c|ms|o ln rn l r IHl IHr|cls ctor attrs _|attrs _] using (level_ind V); try reflexivity.
+    cbn [erase Model.operand]. rewrite IHl, IHr. reflexivity.
+  Qed.
+
+  Lemma erase_a_lit (a : assertion V) : is_lit V (erase_a a) = is_lit V a.
+  Proof. destruct a; reflexivity. Qed.
+
+  Theorem holds_erase (a : assertion V) : holds (erase_a a) = holds a.
+  Proof.
+    induction a as [l g|l g|x IHx y IHy|b|s x IHx g|s l x IHx]; cbn [erase_a Model.holds];
+      rewrite ?operand_erase, ?IHx, ?IHy; try reflexivity.
+    destruct (holds x) as [[|]| |]; try reflexivity.
+    destruct y; try exact IHy; reflexivity.
+  Qed.
+
+  (* two assertions written on the same operands under different variable names have the same verdict *)
+  Corollary names_irrelevant (a b : assertion V) : erase_a a = erase_a b -> holds a = holds b.
+  Proof. intro E. rewrite <- (holds_erase a), <- (holds_erase b), E. reflexivity. Qed.
+End Names.
